@@ -351,6 +351,8 @@ class ReservablePriorityReqFilterStore(FilterStore):
                   #reserving the item to preserved item order by adding the reserve_get event to a list(the index position of event= index position of reserved item)
                   self.reserved_events.append(event)
                   break
+        # after a grant, let the service loop go on to the next waiting request
+        return event.triggered
 
 
 
